@@ -497,7 +497,7 @@ func ctInputs(ctx *core.Ctx) []ctIn {
 		els = append(els, inOf(&f.E))
 	}
 	k := 3
-	for i := 0; i < latticeSize(k); i += tierN(ctx, 7, 1) {
+	for i := 0; i < latticeSize(k); i += sz(ctx, 7, 7, 1) {
 		els = append(els, elemIn{latticeAt(k, i)})
 	}
 	ep := func(i int) *elemIn { e := els[i%len(els)]; return &e }
